@@ -2,6 +2,7 @@
 package loglab
 
 import (
+	"bytes"
 	"fmt"
 	"sort"
 	"sync"
@@ -12,6 +13,8 @@ import (
 	"github.com/rminnich/go9p"
 
 	"verif/core"
+	"verif/lab/srvlab"
+	"verif/wire"
 )
 
 const W = 15 * time.Second
@@ -72,11 +75,112 @@ func c20Cases(tier string, seed int64) []core.Case {
 		producers := producers
 		cases = append(cases, core.Case{ID: fmt.Sprintf("bigring/producers=%d", producers), Run: func(ctx *core.Ctx) core.Result { return c20Big(ctx, producers, tier == "thorough") }})
 	}
+	// the library's own producers: a server connection that logs every message and packet it receives and sends; what
+	// Filter returns for that connection must be those messages, also after the buffers they were in have been reused
+	for _, dotu := range []bool{true, false} {
+		dotu := dotu
+		cases = append(cases, core.Case{ID: fmt.Sprintf("server-connection-log/dotu=%v", dotu), Run: func(ctx *core.Ctx) core.Result { return c20ServerLog(ctx, dotu) }})
+	}
 	for _, n := range []int{1, 2, 3} {
 		n := n
 		cases = append(cases, core.Case{ID: fmt.Sprintf("porcupine/N=%d", n), Run: func(ctx *core.Ctx) core.Result { return c20Porc(ctx, n, tier == "thorough") }})
 	}
 	return cases
+}
+
+func c20ServerLog(ctx *core.Ctx, dotu bool) core.Result {
+	var res core.Result
+	s := srvlab.NewSess(srvlab.Config{Dotu: dotu, Msize: 8192, Debug: go9p.DbgLogFcalls | go9p.DbgLogPackets})
+	c := s.Dial()
+	defer c.Hangup()
+	ver := "9P2000"
+	if dotu {
+		ver = "9P2000.u"
+	}
+	var wireLog [][]byte // every frame that crossed the connection, in order (one request at a time)
+	tag := uint16(0)
+	rpc := func(m *wire.Msg) *wire.Msg {
+		if m.Type != wire.Tversion {
+			tag++
+			m.Tag = tag
+		}
+		raw := wire.Encode(m, dotu)
+		r, err := c.Rpc(m, W)
+		if err != nil || r.Msg == nil {
+			return nil
+		}
+		wireLog = append(wireLog, raw, append([]byte{}, r.Raw...))
+		return r.Msg
+	}
+	if r := rpc(&wire.Msg{Type: wire.Tversion, Tag: wire.NOTAG, Msize: 8192, Version: ver}); r == nil {
+		res.Inconclusive = "c20: version failed"
+		return res
+	}
+	rpc(&wire.Msg{Type: wire.Tattach, Fid: 1, Afid: wire.NOFID, Uname: "root", Nuname: 0})
+	rpc(&wire.Msg{Type: wire.Twalk, Fid: 1, Newfid: 2, Wname: []string{"f"}})
+	rpc(&wire.Msg{Type: wire.Topen, Fid: 2, Mode: 2})
+	for i := 0; i < 40; i++ {
+		switch i % 5 {
+		case 0:
+			rpc(&wire.Msg{Type: wire.Tread, Fid: 2, Offset: uint64(i * 3), Count: uint32(20 + 13*i)})
+		case 1:
+			rpc(&wire.Msg{Type: wire.Tstat, Fid: 1})
+		case 2:
+			rpc(&wire.Msg{Type: wire.Twrite, Fid: 2, Offset: uint64(i), Count: uint32(5 + i), Data: []byte(fmt.Sprintf("%-60d", i))[:5+i]})
+		case 3:
+			rpc(&wire.Msg{Type: wire.Tstat, Fid: 4000 + uint32(i)}) // refused: Rerror
+		case 4:
+			rpc(&wire.Msg{Type: wire.Twalk, Fid: 1, Newfid: 100 + uint32(i), Wname: []string{"d", "e"}})
+		}
+	}
+	conn := c.GC
+	lg := s.Srv.Log
+	if conn == nil || lg == nil {
+		res.Inconclusive = "c20: no connection log"
+		return res
+	}
+	// logging is asynchronous: bounded polls until every frame is there
+	var pk, fcs []*go9p.Log
+	for poll := 0; poll < 2000; poll++ {
+		pk = lg.Filter(conn, go9p.DbgLogPackets)
+		fcs = lg.Filter(conn, go9p.DbgLogFcalls)
+		if len(pk) >= len(wireLog) && len(fcs) >= len(wireLog) {
+			break
+		}
+		time.Sleep(time.Millisecond)
+	}
+	res.Evals++
+	res.Count("connection_log_entries_compared", int64(len(pk)+len(fcs)))
+	if len(pk) != len(wireLog) || len(fcs) != len(wireLog) {
+		res.Violate("C20;connection-log;count", fmt.Sprintf("%d frames crossed the connection; its log holds %d packets and %d messages", len(wireLog), len(pk), len(fcs)), nil)
+		return res
+	}
+	for i, want := range wireLog {
+		got, ok := pk[i].Data.([]byte)
+		if !ok || !bytes.Equal(got, want) {
+			res.Violate("C20;connection-log;packet-not-what-was-logged", fmt.Sprintf("packet entry %d of the connection's log (a %s) is not the frame that crossed the connection at that position", i, wire.TypeName(want[4])), map[string]interface{}{"index": i, "entries": len(wireLog)})
+			break
+		}
+	}
+	for i, want := range wireLog {
+		f, ok := fcs[i].Data.(*go9p.Fcall)
+		m, _, _ := wire.Decode(want, dotu)
+		if !ok || f == nil || m == nil {
+			res.Violate("C20;connection-log;message-entry", fmt.Sprintf("message entry %d is not an Fcall", i), nil)
+			break
+		}
+		if f.Type != m.Type || f.Tag != m.Tag {
+			res.Violate("C20;connection-log;message-not-what-was-logged", fmt.Sprintf("message entry %d is %d/tag %d, the frame at that position was %s/tag %d", i, f.Type, f.Tag, wire.TypeName(m.Type), m.Tag), nil)
+			break
+		}
+		if (m.Type == wire.Rread || m.Type == wire.Twrite) && !bytes.Equal(f.Data, m.Data) {
+			res.Violate("C20;connection-log;message-payload-changed;"+wire.TypeName(m.Type), fmt.Sprintf("message entry %d (%s, tag %d) carries %d payload bytes that are not the ones of the frame that was logged", i, wire.TypeName(m.Type), m.Tag, len(f.Data)), nil)
+			break
+		}
+	}
+	res.Sig(fmt.Sprintf("server-log|%v|%d", dotu, len(wireLog)))
+	res.Sample(map[string]interface{}{"scenario": "server connection with DbgLogFcalls|DbgLogPackets", "frames": len(wireLog)})
+	return res
 }
 
 // decode turns a Filter result into entries; ok=false if something is not a logged entry.
